@@ -842,7 +842,8 @@ class Exec:
 
     # ---- inline call of a translated function
     def call(self, f, this_loc, argvals, argnodes, fr_caller, st, cx, k):
-        if f.id in cx.stack:
+        if cx.stack.count(f.id) >= 2:
+            # one level of self-call is executed (e.g. "if aliased, copy and call myself"); deeper recursion is outside the dialect
             raise Untranslatable("recursion through %s" % f.name)
         if f.body is None:
             raise Untranslatable("no body for %s" % f.name)
@@ -1055,8 +1056,11 @@ class Translated:
     pass
 
 
-def translate_function(prog, f):
-    """returns Translated with .key .params [(leanname, code)] .tree .outs [(name, loc)] .rettype"""
+def translate_function(prog, f, alias=None):
+    """returns Translated with .key .params [(leanname, code, ctype)] .tree .outs [(name, loc)] .rettype
+
+    alias: optional list of groups (tuples of parameter positions, position 0 being `*this` for non-static
+    Integer methods) whose members denote the SAME object: they share one location of the store (C15)."""
     ex = Exec(prog)
     cx = Ctx(prog)
     fr = {}
@@ -1064,15 +1068,31 @@ def translate_function(prog, f):
     used = set()
     params = []   # (leanname, code, ctype)
     outs = []     # (label, Loc)
+    group_of = {}
+    for g in (alias or []):
+        for i in g:
+            group_of[i] = tuple(g)
+    shared = {}   # group -> (Loc, leanname)
+    isrefs = []   # per position: can this parameter alias another object (reference / this)?
+
+    def z_loc(pos, wanted_name):
+        g = group_of.get(pos)
+        if g is not None and g in shared:
+            return shared[g] + (False,)
+        nm = lean_name(wanted_name, used)
+        l = cx.fresh("Z", nm)
+        st[l.id] = T(nm, "int")
+        if g is not None:
+            shared[g] = (l, nm)
+        return l, nm, True
     if f.is_method and not f.static and f.kind != "CXXConstructorDecl" and f.cls != "Integer":
         # `this` is a domain object (e.g. ZRing<Integer>), not an Integer: present but never read as a number
         fr["this"] = cx.fresh("obj", "ring")
     elif f.is_method and not f.static and f.kind != "CXXConstructorDecl":
-        l = cx.fresh("Z", "self")
-        nm = lean_name("self", used)
+        l, nm, fresh_ = z_loc(0, "self")
         fr["this"] = l
-        st[l.id] = T(nm, "int")
         params.append((nm, "Zc" if f.const else "Z", "Integer"))
+        isrefs.append(True)
         if not f.const:
             outs.append(("this", l))
     if f.kind == "CXXConstructorDecl":
@@ -1082,15 +1102,18 @@ def translate_function(prog, f):
     for i, p in enumerate(f.params):
         c, isref, isconst = classify(type_of(p))
         code = pcode(p)
-        nm = lean_name(p.get("name") or ("a%d" % i), used)
         if c[0] == "Z":
-            l = cx.fresh("Z", nm)
+            l, nm, fresh_ = z_loc(len(params), p.get("name") or ("a%d" % i))
             fr[p["id"]] = l
-            st[l.id] = T(nm, "int")
             params.append((nm, code, "Integer"))
+            isrefs.append(bool(isref))
             if isref and not isconst:
+                if any(o[1].id == l.id for o in outs):
+                    raise Untranslatable("alias pattern identifies two outputs")
                 outs.append((nm, l))
         elif c[0] == "word":
+            nm = lean_name(p.get("name") or ("a%d" % i), used)
+            isrefs.append(False)
             l = cx.fresh("word:" + c[1], nm)
             fr[p["id"]] = l
             st[l.id] = T(nm, "int", c[1])
@@ -1129,6 +1152,20 @@ def translate_function(prog, f):
     t.tree = tree
     t.outs = outs
     t.ret = rc
+    t.isrefs = isrefs
+    t.alias = [tuple(g) for g in (alias or [])]
+    if alias:
+        t.key += "__al_" + "_".join("".join(str(i) for i in g) for g in t.alias)
+    # parameters with merged (aliased) positions removed: binder / argument order of the Lean definition
+    seen_n, up = set(), []
+    for pos, (n, c_, ct) in enumerate(params):
+        if n in seen_n:
+            continue
+        seen_n.add(n)
+        if pos in group_of and any(params[j][1] == "Z" for j in group_of[pos]):
+            c_ = "Z"
+        up.append((n, c_, ct))
+    t.uparams = up
     return t
 
 
@@ -1154,7 +1191,7 @@ def tree_stats(tree):
 
 
 def emit_def(t):
-    args = " ".join(n for n, _, _ in t.params)
+    args = " ".join(n for n, _, _ in t.uparams)
     hdr = "def %s %s: Res :=\n" % (t.key, ("(%s : Int) " % args) if args else "")
     return hdr + tree_to_lean(t.tree, t.outs)
 
